@@ -302,13 +302,13 @@ func TestVerif_C34_MRSWLockstep(t *testing.T) {
 		var blocked []*c34Call
 		var trace []string
 		nontrivial := false
-		admittedR, admittedW, refused, upgraded, mixedWake := 0, 0, 0, 0, 0
+		admittedR, admittedW, refused, upgraded, mixedWake, multiReaderWake := 0, 0, 0, 0, 0, 0
 
 		drainAll := func() {
 			// best effort release so that goroutines end (the lock may be in a
 			// state in which a release panics: the violation is already recorded)
 			defer func() { recover() }()
-			deadline := time.Now().Add(c34Proceed)
+			deadline := time.Now().Add(2 * time.Second)
 			for len(blocked) > 0 && time.Now().Before(deadline) {
 				for a := range state {
 					switch state[a] {
@@ -346,6 +346,12 @@ func TestVerif_C34_MRSWLockstep(t *testing.T) {
 		}
 
 		settle := func() {
+			readersThisSettle := 0
+			defer func() {
+				if readersThisSettle >= 2 {
+					multiReaderWake++
+				}
+			}()
 			for {
 				enabled := 0
 				hasR, hasW := false, false
@@ -380,6 +386,7 @@ func TestVerif_C34_MRSWLockstep(t *testing.T) {
 					m.readers++
 					state[c.actor] = 1
 					admittedR++
+					readersThisSettle++
 					trace = append(trace, "["+name+"-rb-admitted]")
 				} else {
 					if !m.canWrite() {
@@ -559,6 +566,9 @@ func TestVerif_C34_MRSWLockstep(t *testing.T) {
 		}
 		if mixedWake > 0 {
 			rec.Label("reader-and-writer-woken-together")
+		}
+		if multiReaderWake > 0 {
+			rec.Label(">=2-blocked-readers-admitted-by-one-release(all-keep-holding)")
 		}
 		if refused > 0 {
 			rec.Label("try-or-upgrade-refused")
